@@ -283,9 +283,44 @@ class PitRun:
                 sp.can_be_prefix, sp.lifetime, sp.nonce, sp.must_be_fresh = bool(t['cbp']), t['life'] * TICK_MS, 0x01020304, (e % 8 == 0)
                 kw = dict(interest_param=sp)
             self.vfut.append([])
+            # the name in every accepted representation (component list, URI text, encoded Name, tuple, and buffers which
+            # the caller overwrites as soon as the call has returned: a pending Interest must not alias them)
+            scratch = None
+            rep = e % 6
+            if rep == 1:
+                name = enc.Name.to_str(name)
+            elif rep == 2:
+                name = bytes(enc.Name.to_bytes(name))
+            elif rep == 3:
+                name = tuple(bytes(c) for c in name)
+            elif rep == 4:
+                scratch = name = bytearray(enc.Name.to_bytes(name))
+            elif rep == 5:
+                scratch = bytearray(b''.join(bytes(c) for c in name))
+                views, off = [], 0
+                for c in name:
+                    views.append(memoryview(scratch)[off:off + len(c)])
+                    off += len(c)
+                name = views
             try:
                 before = len(self.face.out)
-                if self.front == 'v2':
+                if e % 7 == 3 and (self.front == 'v2' or e % 4 != 2):
+                    # the other public way to express an Interest: the caller encodes it itself and hands over the wire,
+                    # the final name and the parameters (express_raw_interest, both front-ends)
+                    ip = kw.get('interest_param')
+                    if ip is None:
+                        ip = enc.InterestParam(**{k: v for k, v in kw.items()
+                                                  if k in ('can_be_prefix', 'must_be_fresh', 'nonce', 'lifetime')})
+                        if 'lifetime' not in kw:
+                            ip.lifetime = None
+                    raw, fname = enc.make_interest(name, ip, kw.get('app_param'), signer=kw.get('signer'), need_final_name=True)
+                    if not self.face.running:
+                        raise ndn_types.NetworkError('cannot send packet before connected')
+                    if self.front == 'v2':
+                        coro = self.app.express_raw_interest(fname, ip, raw, self.validator_for(e))
+                    else:
+                        coro = self.app.express_raw_interest(fname, ip, raw, self.validator_for(e))
+                elif self.front == 'v2':
                     coro = self.app.express(name, self.validator_for(e), **kw)
                 elif e % 4 == 2:
                     # no validator of its own: the application-wide data_validator is in force
@@ -304,6 +339,9 @@ class PitRun:
                 return
             if a == 'ExpressDown':
                 self.bg.append('express-while-down-accepted')
+            if scratch is not None:
+                for k in range(len(scratch)):
+                    scratch[k] = 0x2a
             idx = len(self.tasks)
             self.done_at.append(0)
             if ev.get('defer'):
